@@ -41,6 +41,18 @@ type driver struct {
 	gz     string
 	dh     string
 	nviol  int
+	// seq: the build being judged is part of a strictly SEQUENTIAL experiment (no other process
+	// is alive); a hit without the signature section then cannot be the lookup race C19-F2
+	seq bool
+}
+
+// sigTag: the tag for an image that differs from the reference only in S: lines smaller by a
+// signature section
+func (d *driver) sigTag() string {
+	if d.seq {
+		return "stale-hit-without-signature-section"
+	}
+	return "hit-without-signature-section"
 }
 
 func (d *driver) violation(tag string, desc map[string]any) {
@@ -135,7 +147,7 @@ func (d *driver) checkBuild(what string, rev int, pkgs []string, cache string, r
 		var tag string
 		var bad []string
 		if sl := d.onlySizeLinesDiffer(rev, pkgs, r.Res); sl != nil {
-			tag, bad = "hit-without-signature-section", sl
+			tag, bad = d.sigTag(), sl
 		} else {
 			tag, bad = d.triage(cache, "digest-differs-with-cache")
 		}
@@ -197,6 +209,11 @@ func (d *driver) checkOffline(what string, pkgs []string, cache string, desc map
 	}
 	if !d.anyRef(pkgs, r.Res.Digest) {
 		tag, bad := d.triage(cache, "offline-digest-differs")
+		for rev := range d.w.revs {
+			if sl := d.onlySizeLinesDiffer(rev, pkgs, r.Res); sl != nil {
+				tag, bad = d.sigTag(), sl
+			}
+		}
 		r.Res.InstalledDB = ""
 		dd := map[string]any{"what": what, "offline_result": r.Res, "bad": bad}
 		for k, v := range desc {
@@ -383,6 +400,16 @@ func hookFor(c crashSpec, signed, idxInProc bool) string {
 type sbuild struct {
 	Rev   int       `json:"rev"`
 	Crash crashSpec `json:"crash"`
+	// Flip > 0: the repository switches to revision Flip right after this build's HEAD of the
+	// index has been answered (from revision Rev): the GET brings the etag and body of Flip
+	Flip int `json:"flip,omitempty"`
+}
+
+func (sb sbuild) getRev() int {
+	if sb.Flip > 0 {
+		return sb.Flip
+	}
+	return sb.Rev
 }
 
 // runScenario runs the builds of one scenario for package pkg on a fresh
@@ -397,10 +424,19 @@ func (d *driver) runScenario(name, pkg string, builds []sbuild) {
 	for i, sb := range builds {
 		d.w.setRev(sb.Rev)
 		rev := d.w.revs[sb.Rev]
-		b := d.w.built(sb.Rev, pkg)
+		// the revision whose index (and packages) this build gets
+		grev := d.w.revs[sb.getRev()]
+		b := d.w.built(sb.getRev(), pkg)
 		signed := b.Sig != nil
 		_, err := os.Stat(filepath.Join(cache, d.w.cacheRepoDir(), arch, "APKINDEX", rev.b32+".tar.gz"))
 		idxInProc := err != nil
+		if sb.Flip > 0 {
+			if !idxInProc {
+				fmt.Fprintf(os.Stderr, "scenario %s: a flip needs a build that downloads the index\n", name)
+				os.Exit(2)
+			}
+			d.w.flipAfterHead(sb.Flip)
+		}
 		hook := ""
 		if sb.Crash.Kind != "" {
 			hook = hookFor(sb.Crash, signed, idxInProc)
@@ -413,13 +449,15 @@ func (d *driver) runScenario(name, pkg string, builds []sbuild) {
 		r := d.w.run(runSpec{Cache: cache, Pkgs: pk, CrashAt: hook})
 		done := !r.Killed && r.Res.OK
 		completed = append(completed, gal.Bool(done))
-		terms = append(terms, fmt.Sprintf("{| b_idir := %s; b_etag := %s; b_pdir := %s; b_apk := %s; b_crash := %s |}",
-			gal.Str(idir), gal.Str(rev.b32), gal.Str(pdirOf(b)), apkTerm(b), sb.Crash.term()))
+		terms = append(terms, fmt.Sprintf("{| b_idir := %s; b_etag := %s; b_etag_get := %s; b_pdir := %s; b_apk := %s; b_crash := %s |}",
+			gal.Str(idir), gal.Str(rev.b32), gal.Str(grev.b32), gal.Str(pdirOf(b)), apkTerm(b), sb.Crash.term()))
 		desc := map[string]any{"exp": "scenario", "name": name, "pkg": pkg, "builds": builds[:i+1], "hooks": append([]string{}, hooks...),
 			"killed": r.Killed, "result": workerResult{OK: r.Res.OK, Digest: r.Res.Digest, DiffID: r.Res.DiffID, Err: r.Res.Err}}
 		if done {
 			// a build that ran to the end with the cache must equal the build without it
-			d.checkBuild("scenario "+name, sb.Rev, pk, cache, r, desc)
+			d.seq = true
+			d.checkBuild("scenario "+name, sb.getRev(), pk, cache, r, desc)
+			d.seq = false
 		} else if !r.Killed {
 			tag, bad := d.triage(cache, "build-with-cache-fails")
 			desc["bad"] = bad
@@ -438,7 +476,9 @@ func (d *driver) runScenario(name, pkg string, builds []sbuild) {
 		})
 	}
 	last := builds[len(builds)-1]
+	d.seq = true
 	o := d.checkOffline("offline after scenario "+name, pk, cache, map[string]any{"exp": "scenario", "name": name, "pkg": pkg, "builds": builds})
+	d.seq = false
 	m, _ := d.stats["scenario_offline"].(map[string]int)
 	if m == nil {
 		m = map[string]int{}
@@ -456,12 +496,11 @@ func (d *driver) stageCrash() {
 	signedPts := []int{2, 3, 6, 9, 10, 13, 14, 15, 16, 17, 18, 19, 20, 21, 22}
 	unsignedPts := []int{2, 3, 6, 7, 10, 11, 12, 13, 14, 15, 16, 17}
 	pks := []pk{{"solo", signedPts}, {"plain", unsignedPts}}
-	nc := crashSpec{}
 	for _, p := range pks {
 		// every index hook point, then recovery
 		if p.name == "solo" {
 			for _, k := range []int{2, 4, 5, 6} {
-				d.runScenario(fmt.Sprintf("idx-kill-%d", k), p.name, []sbuild{{0, crashSpec{"idx", k}}, {0, nc}})
+				d.runScenario(fmt.Sprintf("idx-kill-%d", k), p.name, []sbuild{{Rev: 0, Crash: crashSpec{"idx", k}}, {Rev: 0}})
 			}
 		}
 		// every package hook point once, then recovery with the cache
@@ -469,28 +508,37 @@ func (d *driver) stageCrash() {
 			if p.name == "plain" && d.tier == "quick" && !(k == 7 || k == 13 || k == 15) {
 				continue
 			}
-			d.runScenario(fmt.Sprintf("pkg-kill-%d", k), p.name, []sbuild{{0, crashSpec{"pkg", k}}, {0, nc}})
+			d.runScenario(fmt.Sprintf("pkg-kill-%d", k), p.name, []sbuild{{Rev: 0, Crash: crashSpec{"pkg", k}}, {Rev: 0}})
 		}
 	}
 	// killed twice in a row at different points, then recovery
-	d.runScenario("two-kills", "solo", []sbuild{{0, crashSpec{"pkg", 16}}, {0, crashSpec{"pkg", 10}}, {0, nc}})
+	d.runScenario("two-kills", "solo", []sbuild{{Rev: 0, Crash: crashSpec{"pkg", 16}}, {Rev: 0, Crash: crashSpec{"pkg", 10}}, {Rev: 0}})
 	// repository update between builds: new index revision + rebuilt package of the same name-version
-	d.runScenario("update", "solo", []sbuild{{0, nc}, {1, nc}, {0, nc}, {1, nc}})
-	d.runScenario("update-idx-kill", "solo", []sbuild{{0, nc}, {1, crashSpec{"idx", 4}}, {1, nc}, {0, nc}})
-	d.runScenario("update-pkg-kill", "solo", []sbuild{{0, nc}, {1, crashSpec{"pkg", 18}}, {1, nc}, {0, nc}})
-	d.runScenario("update-pkg-kill-20", "solo", []sbuild{{0, crashSpec{"pkg", 20}}, {1, nc}, {1, nc}})
+	d.runScenario("update", "solo", []sbuild{{Rev: 0}, {Rev: 1}, {Rev: 0}, {Rev: 1}})
+	d.runScenario("update-idx-kill", "solo", []sbuild{{Rev: 0}, {Rev: 1, Crash: crashSpec{"idx", 4}}, {Rev: 1}, {Rev: 0}})
+	d.runScenario("update-pkg-kill", "solo", []sbuild{{Rev: 0}, {Rev: 1, Crash: crashSpec{"pkg", 18}}, {Rev: 1}, {Rev: 0}})
+	d.runScenario("update-pkg-kill-20", "solo", []sbuild{{Rev: 0, Crash: crashSpec{"pkg", 20}}, {Rev: 1}, {Rev: 1}})
+	// revision 2: solo's control section changed, its data section did not (same <datahash>.dat.tar.gz name);
+	// the build is killed right after advertising the new control section, before its signature section
+	// (finding C19-F3: the next build is a HIT without the signature section, for ever)
+	d.runScenario("meta-rebuild-kill-after-ctl", "solo", []sbuild{{Rev: 0}, {Rev: 2, Crash: crashSpec{"pkg", 16}}, {Rev: 2}})
+	d.runScenario("meta-rebuild", "solo", []sbuild{{Rev: 0}, {Rev: 2}, {Rev: 0}})
+	// the repository is updated BETWEEN the HEAD and the GET of the first build: the body of
+	// revision 1 must be filed under revision 1's etag (seeded C19-2 files it under revision 0's)
+	d.runScenario("update-between-head-and-get", "solo", []sbuild{{Rev: 0, Flip: 1}, {Rev: 0}, {Rev: 1}, {Rev: 0}})
+	d.runScenario("update-between-head-and-get-kill", "solo", []sbuild{{Rev: 0, Flip: 1, Crash: crashSpec{"idx", 5}}, {Rev: 0}, {Rev: 1}})
 	// the in-place rebuild of <hash>.dat.tar (candidate C19-F1): killed between
 	// advertising .dat.tar.gz and .dat.tar, then a build killed inside the rebuild
 	sd, ud := 20, 15
 	for _, rk := range []int{2, 3, 4} {
-		d.runScenario(fmt.Sprintf("rebuild-kill-%d", rk), "solo", []sbuild{{0, crashSpec{"pkg", sd}}, {0, crashSpec{"rebuild", rk}}, {0, nc}})
+		d.runScenario(fmt.Sprintf("rebuild-kill-%d", rk), "solo", []sbuild{{Rev: 0, Crash: crashSpec{"pkg", sd}}, {Rev: 0, Crash: crashSpec{"rebuild", rk}}, {Rev: 0}})
 	}
-	d.runScenario("rebuild-complete", "solo", []sbuild{{0, crashSpec{"pkg", sd}}, {0, nc}, {0, nc}})
-	d.runScenario("rebuild-kill-2-unsigned", "plain", []sbuild{{0, crashSpec{"pkg", ud}}, {0, crashSpec{"rebuild", 2}}, {0, nc}})
+	d.runScenario("rebuild-complete", "solo", []sbuild{{Rev: 0, Crash: crashSpec{"pkg", sd}}, {Rev: 0}, {Rev: 0}})
+	d.runScenario("rebuild-kill-2-unsigned", "plain", []sbuild{{Rev: 0, Crash: crashSpec{"pkg", ud}}, {Rev: 0, Crash: crashSpec{"rebuild", 2}}, {Rev: 0}})
 	if d.tier == "thorough" {
-		d.runScenario("rebuild-kill-pre-symlink", "solo", []sbuild{{0, crashSpec{"pkg", 21}}, {0, crashSpec{"rebuild", 2}}, {0, nc}})
+		d.runScenario("rebuild-kill-pre-symlink", "solo", []sbuild{{Rev: 0, Crash: crashSpec{"pkg", 21}}, {Rev: 0, Crash: crashSpec{"rebuild", 2}}, {Rev: 0}})
 		for _, k := range signedPts {
-			d.runScenario(fmt.Sprintf("update-then-kill-%d", k), "solo", []sbuild{{0, nc}, {1, crashSpec{"pkg", k}}, {1, nc}, {0, nc}})
+			d.runScenario(fmt.Sprintf("update-then-kill-%d", k), "solo", []sbuild{{Rev: 0}, {Rev: 1, Crash: crashSpec{"pkg", k}}, {Rev: 1}, {Rev: 0}})
 		}
 	}
 	d.stageStallKill()
@@ -780,7 +828,7 @@ func main() {
 	flag.String("replay", "", "unused")
 	flag.Parse()
 
-	w, err := newWorld(2)
+	w, err := newWorld(3)
 	if err != nil {
 		fmt.Fprintln(os.Stderr, err)
 		os.Exit(2)
